@@ -117,7 +117,17 @@ type Parser struct {
 
 	// Are we inside a function?
 	function bool
+
+	// How deeply nested is the expression we're parsing?
+	depth int
 }
+
+// maxDepth is the deepest nesting of expressions and blocks we accept.
+//
+// Scripts might come from anywhere, and parsing is recursive: without
+// a limit a pathologically nested script would exhaust the stack of
+// the host-application instead of being reported as an error.
+const maxDepth = 1000
 
 // New returns a new parser.
 //
@@ -313,6 +323,16 @@ func (p *Parser) parseExpressionStatement() *ast.ExpressionStatement {
 
 // parse an expression.
 func (p *Parser) parseExpression(precedence int) ast.Expression {
+
+	// Keep track of how deeply nested we are.
+	p.depth++
+	defer func() { p.depth-- }()
+	if p.depth > maxDepth {
+		msg := fmt.Sprintf("expression nested too deeply around %s", p.curToken.Position())
+		p.errors = append(p.errors, msg)
+		return nil
+	}
+
 	postfix := p.postfixParseFns[p.curToken.Type]
 	if postfix != nil {
 		return (postfix())
